@@ -120,6 +120,30 @@ Emit == /\ (Len(hist) = Len(GPrefix)) => PrintT(<<"PREF", ToJson(hist)>>)
         /\ (Len(hist) = Len(GPrefix) + GenDepth /\ (GSample = 1 \/ (HistHash(Free, 7) + GSeed) % GSample = 0))
                => PrintT(<<"HIST", ToJson(Free)>>)
 
+\* ---- the clauses of C11 as properties of the reference machine itself (checked on every
+\* generator run; they hold by construction of KVStore!Eff and guard the specification
+\* against edits that would silently weaken what the replays demand)
+WellFormed(S) ==
+    /\ \A p \in S.bk : Len(p) >= 1 /\ ValidName(Name(p)) /\ (Len(p) = 1 \/ Parent(p) \in S.bk)
+    /\ \A x \in DOMAIN S.kv : x[1] \in S.bk /\ ValidKey(x[2]) /\ ValidVal(S.kv[x])
+TreeOK == WellFormed(st.com) /\ WellFormed(st.view) /\ (~st.open => st.view = EmptyStore)
+
+RECURSIVE Ascending(_)
+Ascending(es) == Len(es) < 2 \/ (Less(es[1][1], es[2][1]) /\ Ascending(Tail(es)))
+
+Clauses ==
+    [][ LET e == hist'[Len(hist')] IN
+        /\ e.a # "commit" => st'.com = st.com                  \* only a commit changes what read transactions see,
+        /\ e.a = "commit" => st'.com = st.view /\ ~st'.open    \* and it publishes the whole view at once
+        /\ e.a \in {"rollback", "errret"} => st'.com = st.com /\ ~st'.open
+        /\ e.a = "begin" => st'.view = st.com /\ st'.open
+        /\ e.a = "reopen" => st' = st                          \* everything committed is still there
+        /\ e.exp.c \in {"err", "nobucket", "any", "noval"} => st'.view = st.view    \* an error return changes nothing
+        /\ e.a \in ReadOps => st'.view = st.view /\ st'.com = st.com
+        /\ (e.a \in {"pget", "iterp"} \/ (e.a = "iter" /\ ~e.s)) /\ e.exp.c \in {"ents", "entset"}
+              => Ascending(e.exp.x)                            \* each matching entry once, ascending
+      ]_gvars
+
 \* the prefix must be executable (a wrong script would silently generate nothing)
 PrefixOK == Len(hist) < Len(GPrefix) => Usable(st, GPrefix[Len(hist) + 1])
 =============================================================================
